@@ -16,6 +16,9 @@ package fsbinlog
 //     at every cut;
 //   - on the final log: full replay, resume from EVERY commit notification with the meta it carried;
 //   - truncation of the last file at EVERY byte; one bit flipped at EVERY byte of every file;
+//   - after EVERY truncation the history continues (verif_c18_continue_test.go): a writing master is restarted on
+//     the truncated files and, where it accepts writes, every short sequence of new payloads is appended and the
+//     files are replayed again (exactly the old complete events + the acknowledged new ones, at their offsets);
 //   - a second family with 64 KiB payloads, the only way to make the unchanged writer emit levCrc32
 //     records (writeCrcEveryBytes is a 64 KiB constant), with the same damage enumeration.
 //
@@ -926,7 +929,15 @@ type c18Ctx struct {
 	truncs  atomic.Int64
 	resumes atomic.Int64
 	during  atomic.Int64 // batches appended while the writer was inside rotate()
-	lateMu  sync.Mutex
+	// continuation family (verif_c18_continue_test.go)
+	contSeqs    []c18ContSeq // nil: family switched off
+	contUpTo    int          // original logs of at most this many events
+	contPoints  atomic.Int64 // truncation points at which a restarted master accepted writes
+	contRefused atomic.Int64 // truncation points at which it refused
+	conts       atomic.Int64 // continued histories (restarted master + appends + replays)
+	contWFail   atomic.Int64 // ... in which the restarted writer's loop ended with an error (uncommitted events become optional)
+	contARef    atomic.Int64 // ... in which an Append was refused with an error
+	lateMu      sync.Mutex
 	late    []c18Late
 }
 
@@ -1055,6 +1066,7 @@ func (c *c18Ctx) damage(w *c18Written, doTrunc bool, flipLo, flipHi int64) {
 	lastI := len(w.Image.Files) - 1
 	last := w.Image.Files[lastI]
 	if doTrunc {
+		contViol := 0 // truncation points of this log whose continuation violated (the family stops after 3 of them)
 		for t := int64(0); t < int64(len(last.Data)); t++ {
 			r.put(last.Name, last.Data[:t])
 			tim := &c18Image{Files: append(append([]c18File{}, w.Image.Files[:lastI]...), c18File{Name: last.Name, Pos: last.Pos, Data: last.Data[:t]})}
@@ -1073,6 +1085,10 @@ func (c *c18Ctx) damage(w *c18Written, doTrunc bool, flipLo, flipHi int64) {
 			}
 			what := fmt.Sprintf("last file %s (position %d, %d bytes) truncated to %d bytes", last.Name, last.Pos, len(last.Data), t)
 			out := "ok"
+			must, may := g, g
+			if region == "header" {
+				must, may = last.Pos, last.Pos
+			}
 			switch {
 			case res.Panic != "":
 				out = "panic"
@@ -1085,10 +1101,6 @@ func (c *c18Ctx) damage(w *c18Written, doTrunc bool, flipLo, flipHi int64) {
 				}
 				c.report(w, "C18:truncated-"+region+"-replay-fails", what+": replay fails instead of delivering the complete events: "+res.Err.Error(), map[string]any{"truncate_to": t})
 			default:
-				must, may := g, g
-				if region == "header" {
-					must, may = last.Pos, last.Pos
-				}
 				if d := c18CheckDelivered(res.Got, w, n, 0, must, may); d != "" {
 					c.report(w, "C18:truncated-replay-mismatch", what+": "+d, map[string]any{"truncate_to": t})
 				} else if res.BadPay != "" {
@@ -1101,6 +1113,12 @@ func (c *c18Ctx) damage(w *c18Written, doTrunc bool, flipLo, flipHi int64) {
 				}
 			}
 			outcomes["trunc/"+region+"/"+out] = struct{}{}
+			// the history continues: a writing master is restarted on the truncated files
+			if c.contSeqs != nil && n <= c.contUpTo && contViol < 3 {
+				if c.continueAfter(w, tim, what, map[string]any{"truncate_to": t}, must, may, outcomes) {
+					contViol++
+				}
+			}
 		}
 		r.put(last.Name, last.Data)
 	}
@@ -1329,10 +1347,18 @@ func TestVerifC18(t *testing.T) {
 	bigLen := mc.Pick(2, 3)
 	bigTruncMax := mc.Pick(int64(4096), int64(1<<30)) // crc family: truncate the last file at every byte when it is at most this long
 	bigAlpha := mc.Pick([]int{0, c18BigIdx}, []int{0, 2, c18BigIdx})
+	contLen := mc.Pick(2, 2)  // continuation after a truncation: every sequence of 1..contLen new payloads
+	contUpTo := mc.Pick(4, 5) // ... for truncated logs of at most this many events
+	if s := os.Getenv("VERIF_C18_CONT_LEN"); s != "" {
+		fmt.Sscan(s, &contLen)
+	}
+	if contLen > 0 {
+		ctx.contSeqs, ctx.contUpTo = c18ContSeqs(contLen), contUpTo
+	}
 	chunks := []uint32{200, 512}
 	bigChunks := []uint32{1 << 16, 1 << 20}
 
-	rep.Rule = "a case = (payload-size sequence, MaxChunkSize, batching/restart pattern) written by the real writer on a memory FS, then replayed by the real reader: from 0, from every commit notification with its meta, with the last file truncated at every byte, with one bit flipped at every byte of every file; non-trivial = the log rotated at least once or contains a levCrc32 record"
+	rep.Rule = "a case = (payload-size sequence, MaxChunkSize, batching/restart pattern) written by the real writer on a memory FS, then replayed by the real reader: from 0, from every commit notification with its meta, with the last file truncated at every byte (and after each truncation continued by a restarted writing master that appends every short payload sequence, then replayed again), with one bit flipped at every byte of every file; non-trivial = the log rotated at least once or contains a levCrc32 record"
 	rep.Bounds["payload_sizes"] = []int{4, 18, 100, 257}
 	rep.Bounds["payload_sizes_on_disk"] = []int{4, 20, 100, 260}
 	rep.Bounds["max_chunk_size"] = chunks
@@ -1342,6 +1368,7 @@ func TestVerifC18(t *testing.T) {
 	rep.Bounds["append_during_write"] = fmt.Sprintf("n<=%d: ", duringUpTo) + "at every cut of the two extreme batchings the next batch is appended while the writer goroutine is inside rotate() with the current buffer half written (the only point of writeBuffer reachable through the FS interface)"
 	rep.Bounds["resume"] = "from every distinct commit notification (offset, meta) of every history"
 	rep.Bounds["truncation"] = fmt.Sprintf("last file at every byte, every sequence of length <=%d, and crc-family logs whose last file has <=%d bytes", truncUpTo, bigTruncMax)
+	rep.Bounds["continuation_after_truncation"] = fmt.Sprintf("at every truncation point of logs with <=%d events (and of the crc-family logs that are truncated): a writing master is restarted on the truncated files; where it accepts, every sequence of 1..%d new payloads over the size alphabet (length 2: in one write buffer and in two) is appended, committed, and the files are replayed from 0 and resumed from every commit of the restarted master", contUpTo, contLen)
 	rep.Bounds["bit_flips"] = fmt.Sprintf("bit (p mod 8) of every byte p of every file, every sequence of length <=%d and the whole crc family", flipUpTo)
 	rep.Bounds["crc_family"] = fmt.Sprintf("sequences of length 1..%d over %s with 1..2 payloads of 65536 bytes, MaxChunkSize %v, all batchings and reopen patterns", bigLen, mc.Pick("{4,65536}", "{4,100,65536}"), bigChunks)
 	rep.Assume("file-level writes/fsyncs are read from gofs's own dirty-interval log (TrackDirtyPages) at each Commit callback, because gofs.File is a concrete type that a wrapper cannot intercept; durability of directory entries (file creation) is not modelled")
@@ -1516,6 +1543,9 @@ func TestVerifC18(t *testing.T) {
 	rep.Parts["crc_clause"] = map[string]any{"flips_of_covered_bytes": ctx.covered.Load(), "failed_with_crc_error_at_record": ctx.caught.Load(), "failed_before_record": ctx.earlier.Load()}
 	rep.Parts["outside_statement"] = map[string]any{"uncovered_flips_with_different_successful_replay": ctx.uncovOK.Load(), "rotate_to_unverified": ctx.rtUndet.Load()}
 	rep.Parts["damage"] = map[string]any{"truncations": ctx.truncs.Load(), "resumes": ctx.resumes.Load()}
+	rep.Parts["continuation_after_truncation"] = map[string]any{"truncation_points_where_restarted_master_accepted_writes": ctx.contPoints.Load(),
+		"truncation_points_where_it_refused": ctx.contRefused.Load(), "continued_histories": ctx.conts.Load(),
+		"continued_histories_writer_loop_failed": ctx.contWFail.Load(), "continued_histories_append_refused": ctx.contARef.Load()}
 	rep.Parts["interleavings"] = map[string]any{"batches_appended_while_writer_inside_rotate": ctx.during.Load()}
 	if err := rep.Write(); err != nil {
 		t.Fatal(err)
